@@ -478,16 +478,19 @@ class simplify_chained_calls(FuncADLNodeTransformer):
         """
         sub = s.value
         assert isinstance(sub, (str, int))
-        return self.visit_Subscript_Dict_with_value(v, sub)
+        r = self.visit_Subscript_Dict_with_value(v, sub)
+        return r if r is not None else ast.Subscript(v, s, ast.Load())
 
     def visit_Subscript_Dict_with_value(self, v: ast.Dict, s: Union[str, int]):
-        "Do the lookup for the dict"
+        "Do the lookup for the dict. Returns None if the key can't be resolved"
+        if not all(isinstance(k, ast.Constant) for k in v.keys):
+            return None
         for index, value in enumerate(v.keys):
             assert isinstance(value, ast.Constant)
             if value.value == s:
                 return copy.deepcopy(v.values[index])
 
-        return ast.Subscript(v, s, ast.Load())  # type: ignore
+        return None
 
     def visit_Subscript_Of_First(self, first: ast.expr, s):
         """
@@ -516,12 +519,16 @@ class simplify_chained_calls(FuncADLNodeTransformer):
         """
         v = self.visit(node.value)
         s = self.visit(node.slice)
-        if type(v) is ast.Tuple:
-            return self.visit_Subscript_Tuple(v, s)
-        if type(v) is ast.List:
-            return self.visit_Subscript_List(v, s)
-        if type(v) is ast.Dict:
-            return self.visit_Subscript_Dict(v, s)
+        # A literal can only be taken apart here with a constant selector. Anything else
+        # (a variable, a negative index, a slice) is left for the backend.
+        if isinstance(s, ast.Constant):
+            is_index = isinstance(s.value, int) and not isinstance(s.value, bool)
+            if type(v) is ast.Tuple and is_index and s.value >= 0:
+                return self.visit_Subscript_Tuple(v, s)
+            if type(v) is ast.List and is_index and s.value >= 0:
+                return self.visit_Subscript_List(v, s)
+            if type(v) is ast.Dict and (is_index or isinstance(s.value, str)):
+                return self.visit_Subscript_Dict(v, s)
 
         if is_call_of(v, "First"):
             return self.visit_Subscript_Of_First(v.args[0], s)
@@ -561,6 +568,8 @@ class simplify_chained_calls(FuncADLNodeTransformer):
 
         visited_value = self.visit(node.value)
         if isinstance(visited_value, ast.Dict):
-            return self.visit_Subscript_Dict_with_value(visited_value, node.attr)
+            r = self.visit_Subscript_Dict_with_value(visited_value, node.attr)
+            if r is not None:
+                return r
 
         return ast.Attribute(value=visited_value, attr=node.attr, ctx=ast.Load())
